@@ -669,7 +669,12 @@ class DefaultModelInputConverter(ModelInputConverter):
     """
     if not self._converts_to_parameter:
       return None
-    elif not np.isfinite(value):
+    elif np.isnan(value):
+      return None
+    elif not np.isfinite(value) and not (
+        self._should_clip
+        and self.output_spec.type == NumpyArraySpecType.CONTINUOUS
+    ):
       return None
     elif self.parameter_config.type == pyvizier.ParameterType.DOUBLE:
       # Input parameter was DOUBLE. Output is also DOUBLE.
@@ -683,6 +688,13 @@ class DefaultModelInputConverter(ModelInputConverter):
     elif self.output_spec.type == NumpyArraySpecType.CONTINUOUS:
       # The parameter config is originally discrete, but continuified.
       # Round to the closest number.
+      if not np.isfinite(value):
+        # +-inf (an overflowing feature): closest to the largest / smallest.
+        value = np.clip(
+            value,
+            np.min(self.parameter_config.feasible_values),
+            np.max(self.parameter_config.feasible_values),
+        )
       diffs = np.abs(
           np.asarray(self.parameter_config.feasible_values, dtype=self.dtype)
           - value
